@@ -76,10 +76,16 @@ class _Canon(ast.NodeTransformer):
             return True
         return False
 
+    GENERIC_ERRORS = {"Exception", "ValueError", "TypeError", "RuntimeError"}
+
     def visit_Raise(self, node):
         self.generic_visit(node)
         if isinstance(node.exc, ast.Call):
             node.exc.args = [ast.Constant(value="<msg>") if self._is_msg(a) else a for a in node.exc.args]
+            if isinstance(node.exc.func, ast.Name) and node.exc.func.id in self.GENERIC_ERRORS:
+                node.exc.func = ast.Name(id="<Error>", ctx=ast.Load())       # which of the generic built-in errors is raised is not part of any property
+        elif isinstance(node.exc, ast.Name) and node.exc.id in self.GENERIC_ERRORS:
+            node.exc = ast.Call(func=ast.Name(id="<Error>", ctx=ast.Load()), args=[], keywords=[])
         return node
 
     def visit_Return(self, node):
